@@ -871,6 +871,33 @@ def midframe_close(rng, i):
     return {"kind": "backlog-midframe", "cfg": cfg, "steps": steps}
 
 
+def close_throttled(rng, i):
+    """Connection::close (or dropping the Connection) while the I/O thread applies backpressure: the transport is
+    stalled or slow, the high-water mark is crossed, the I/O thread has stopped listening to the channels - and
+    publishes that have RETURNED (accepted into the handles' queues) are still waiting there.  They were accepted
+    before the close: they must go out before Connection.Close does."""
+    fm = rng.choice([4096, 131072])
+    cfg = {"tune": [0, fm, 0], "high": rng.choice([0, 100, 3000]), "low": rng.choice([0, 50]), "bound": 16}
+    steps, ids = opens(2, [1, 2])
+    steps.append(op("A", "qos"))
+    if i % 3 == 2:
+        cfg["write_cycle"] = [rng.choice([1, 7, 64]), 0]
+    else:
+        steps.append({"do": "budget", "n": rng.choice([0, 0, 10])})
+    pid = 30 * i
+    for h, n in (("A", rng.randrange(2, 5)), ("B", rng.randrange(0, 4))):
+        for _ in range(n):
+            pid += 1
+            steps.append(op(h, "publish", len=rng.choice([0, 10, 300, 3000]), pid=pid))
+    if rng.random() < 0.5:
+        steps.append({"do": "sleep", "ms": 30})
+    steps.append({"do": rng.choice(["closeconn", "closeconn", "dropconn"]), "async": True})
+    steps.append({"do": "sleep", "ms": 40})
+    steps.append({"do": "budget", "n": None})
+    steps.append({"do": "sleep", "ms": 150})
+    return {"kind": "backlog-closethrottled", "cfg": cfg, "steps": steps}
+
+
 def close_window(rng, i):
     """Events that arrive in the closing window: the client's Connection.Close has reached the server
     but the server, before it answers CloseOk, still sends confirms, returned messages, blocked
@@ -1410,7 +1437,7 @@ def batches(rng, maxlen, bases, reps=1):
     return res
 
 
-FAMILIES = {"bigframe_seg": bigframe_seg, "open_then_eof": open_then_eof, "pub_cancel": pub_cancel, "cancel_close_race": cancel_close_race, "close_window": close_window, "pressure": pressure, "midframe_close": midframe_close, "undrained": undrained, "connclose_cross": connclose_cross, "reply_then_close": reply_then_close, "chclose_cross": chclose_cross, "listener_split": listener_split, "mixed": mixed, "pubflags": pubflags, "backlog": backlog, "hb_silence": hb_silence, "listener_cross": listener_cross, "close_slow": close_slow, "consumer_drop": consumer_drop, "rpc": rpc, "content": content, "consumer": consumer, "listeners": listeners,
+FAMILIES = {"close_throttled": close_throttled, "bigframe_seg": bigframe_seg, "open_then_eof": open_then_eof, "pub_cancel": pub_cancel, "cancel_close_race": cancel_close_race, "close_window": close_window, "pressure": pressure, "midframe_close": midframe_close, "undrained": undrained, "connclose_cross": connclose_cross, "reply_then_close": reply_then_close, "chclose_cross": chclose_cross, "listener_split": listener_split, "mixed": mixed, "pubflags": pubflags, "backlog": backlog, "hb_silence": hb_silence, "listener_cross": listener_cross, "close_slow": close_slow, "consumer_drop": consumer_drop, "rpc": rpc, "content": content, "consumer": consumer, "listeners": listeners,
             "connclose": connclose, "chanclose": chanclose}
 
 
